@@ -24,6 +24,10 @@ def ratio_grid(rnd, thorough):
     add({2: Fraction(64)}, "2^64")
     add(model.mag_from_fraction(Fraction(1, 3)), "1/3")
     add(model.mag_from_fraction(Fraction(7, 5)), "7/5")
+    # prime factors in [2^63, 2^64): the base itself does not fit the signed widened type
+    add({2 ** 64 - 59: Fraction(1)}, "2^64-59")
+    add({9223372036854775837: Fraction(1)}, "2^63+29")
+    add({2 ** 64 - 59: Fraction(1), 2: Fraction(-70)}, "(2^64-59)/2^70")
     add({2 ** 61 - 1: Fraction(1)}, "2^61-1")
     add({2 ** 61 - 1: Fraction(2)}, "(2^61-1)^2")
     add({model.PI_ID: Fraction(1)}, "pi")
@@ -46,7 +50,7 @@ def ratio_grid(rnd, thorough):
     add(model.mag_from_fraction(299792458), "299792458")
     if not thorough:
         keep = {"1", "1000", "127", "128", "256", "65535", "65536", "2147483647", "2147483648", "4294967296", "9223372036854775807", "9223372036854775808",
-                "18446744073709551615", "2^64", "1/3", "2^61-1", "pi", "10^30", "10^39", "10^309", "2^-200", "299792458", "7/5", "2^-127", "2^-140", "5*2^-1030", "2^-1060", "2^-150"}
+                "18446744073709551615", "2^64", "1/3", "2^61-1", "2^64-59", "2^63+29", "(2^64-59)/2^70", "pi", "10^30", "10^39", "10^309", "2^-200", "299792458", "7/5", "2^-127", "2^-140", "5*2^-1030", "2^-1060", "2^-150"}
         g = [x for x in g if x[1] in keep]
     return g
 
